@@ -203,7 +203,7 @@ func zzH12_history_full() {
 //
 //verif:unwind 200
 func zzH12_history_badkeys() {
-	zzHtHistory(6, 1, 1, zzParam("ops", 3, 4), true)
+	zzHtHistory(6, 1, 1, zzParam("ops", 3, 3), true)
 }
 
 // zzH12_history_free1: 7 residents with five distinct hashes, one free slot.
